@@ -152,7 +152,7 @@ func TestVerifC41Trie(t *testing.T) {
 			if i%97 == 0 || i == n-1 {
 				lim := len(order)
 				if n > 5000 && i != n-1 {
-					lim = 50
+					lim = min(50, len(order))
 				}
 				for _, q := range order[len(order)-lim:] {
 					evals++
